@@ -298,3 +298,10 @@ for _id, _d in {
     for _e in E:
         if _e['id'] == _id:
             _e['duplicate_reports'] += _d
+
+add('C01-send-admits-256-fragments', 'mut01', 2, 'C01',
+    "Send admits a message of 256 fragments ('count > 255' becomes '> 256'); PeekSize computes frg+1 in uint8, which wraps to 0 for frg 255, so a partly arrived message is handed out",
+    change="kcp.go Send: if count > 255  ->  if count > 256",
+    needs="message mode with a raw KCP writer, a message of exactly 256 fragments, windows of at least 256, and the reader polling while the message is partly delivered",
+    checks={'C01 quick': "caught: 49 runs, C01/core-stream/message-boundary 'message 2 has 16560 bytes at offset 16, the peer's message 2 had 141011' (after the two additions below; missed before)"},
+    notes="First evaluation: missed twice over. (1) The raw-core generator clamped every message to 255 fragments, so the boundary was never attempted; it now attempts messages of exactly 256 fragments (refused - then never sent - or accepted - then they must arrive intact). (2) The C01 plan contained only session scenarios, and sessions never fragment; the raw-core scenario (which always carried the C01 oracles) now runs for C01 itself.")
